@@ -1,7 +1,9 @@
 package client
 
 import (
+	"errors"
 	"fmt"
+	"sync"
 	"time"
 
 	pkts "github.com/energomonitor/bisquitt/packets"
@@ -23,6 +25,9 @@ type sleepTransaction struct {
 	sleepDuration       time.Duration
 	state               transactionState
 	timer               *time.Timer
+	// Guards the fields above: they are used by the caller of Sleep, by the
+	// receive loop and by timers.
+	mu sync.Mutex
 }
 
 func newSleepTransaction(client *Client, sleepDuration time.Duration) *sleepTransaction {
@@ -53,16 +58,41 @@ func newSleepTransaction(client *Client, sleepDuration time.Duration) *sleepTran
 }
 
 func (t *sleepTransaction) Success() {
+	t.mu.Lock()
+	defer t.mu.Unlock()
+	t.success()
+}
+
+func (t *sleepTransaction) Fail(e error) {
+	t.mu.Lock()
+	defer t.mu.Unlock()
+	t.fail(e)
+}
+
+// The functions below must be called with t.mu held.
+
+func (t *sleepTransaction) success() {
 	t.stopTimer()
 	t.TransactionBase.Success()
 }
 
-func (t *sleepTransaction) Fail(e error) {
+func (t *sleepTransaction) fail(e error) {
 	t.stopTimer()
 	t.TransactionBase.Fail(e)
 }
 
+func (t *sleepTransaction) isDone() bool {
+	select {
+	case <-t.Done():
+		return true
+	default:
+		return false
+	}
+}
+
 func (t *sleepTransaction) Sleep() error {
+	t.mu.Lock()
+	defer t.mu.Unlock()
 	state := t.client.state.Get()
 	switch state {
 	case util.StateActive:
@@ -70,50 +100,68 @@ func (t *sleepTransaction) Sleep() error {
 		t.disconnect = pkts1.NewDisconnect(duration)
 		t.state = awaitingDisconnect
 		if err := t.client.send(t.disconnect); err != nil {
-			t.Fail(err)
+			t.fail(err)
 			return err
 		}
 		t.timer = time.AfterFunc(t.retryDelay, t.resendDisconnect)
 	case util.StateAwake:
 		t.startSleep()
 	default:
-		return fmt.Errorf("cannot call Sleep() in %q state", state)
+		err := fmt.Errorf("cannot call Sleep() in %q state", state)
+		// The transaction must not stay in the store.
+		t.fail(err)
+		return err
 	}
 	return nil
 }
 
 func (t *sleepTransaction) resendDisconnect() {
+	t.mu.Lock()
+	defer t.mu.Unlock()
+	// The reply could have come while the timer was firing.
+	if t.state != awaitingDisconnect || t.isDone() {
+		return
+	}
 	t.disconnectResendNum++
 	if t.disconnectResendNum > t.retryCount {
 		t.log.Debug("DISCONNECT reply timeout.")
-		t.Fail(transactions.ErrNoMoreRetries)
+		t.fail(transactions.ErrNoMoreRetries)
 		return
 	}
 	t.log.Debug("DISCONNECT resend no. %d", t.disconnectResendNum)
 	if err := t.client.send(t.disconnect); err != nil {
-		t.Fail(err)
+		t.fail(err)
 		return
 	}
 	t.timer = time.AfterFunc(t.retryDelay, t.resendDisconnect)
 }
 
 func (t *sleepTransaction) Disconnect(disconnect *pkts1.Disconnect) {
+	t.mu.Lock()
 	if t.state != awaitingDisconnect {
-		t.log.Debug("Unexpected packet in %d: %v", t.state, disconnect)
+		// Not the reply to our DISCONNECT: the gateway disconnects
+		// a sleeping (or just woken up) client.
+		t.log.Debug("Disconnected by the gateway in %d: %v", t.state, disconnect)
+		t.fail(errors.New("disconnected by the gateway"))
+		t.mu.Unlock()
+		t.client.setState(util.StateDisconnected)
+		t.client.cancel()
 		return
 	}
 	t.stopTimer()
 	t.disconnect = nil
 	t.startSleep()
+	t.mu.Unlock()
 }
 
 func (t *sleepTransaction) Pingresp(pingresp *pkts1.Pingresp) {
+	t.mu.Lock()
+	defer t.mu.Unlock()
 	if t.state != awaitingPingresp {
 		t.log.Debug("Unexpected packet in %d: %v", t.state, pingresp)
 		return
 	}
-	t.stopTimer()
-	t.Success()
+	t.success()
 }
 
 func (t *sleepTransaction) stopTimer() {
@@ -124,6 +172,7 @@ func (t *sleepTransaction) stopTimer() {
 
 func (t *sleepTransaction) startSleep() {
 	t.log.Debug("Sleeping for %v...", t.sleepDuration)
+	t.state = sleeping
 	t.client.setState(util.StateAsleep)
 	// A (keep-alive) ping still in progress must not be retransmitted while
 	// asleep and must not take the wake-up PINGRESP. No new one can start
@@ -135,12 +184,17 @@ func (t *sleepTransaction) startSleep() {
 }
 
 func (t *sleepTransaction) wakeup() {
+	t.mu.Lock()
+	defer t.mu.Unlock()
+	if t.state != sleeping || t.isDone() {
+		return
+	}
 	t.client.setState(util.StateAwake)
 	t.log.Debug("Awake")
 	t.state = awaitingPingresp
 	ping := pkts1.NewPingreq([]byte(t.client.cfg.ClientID))
 	if err := t.client.send(ping); err != nil {
-		t.Fail(err)
+		t.fail(err)
 		return
 	}
 	t.timer = time.AfterFunc(maxPingrespWait, func() {
